@@ -651,7 +651,7 @@ def call_type(interp, name, args, kwargs):
             return Atom(name, [a], name)
         if a.tag == 'str':
             if interp.decide('%s(%r) parses' % (name, a), [True, False]):
-                return Atom(name, [a], name)
+                return Atom(name, [a] + list(args[1:]), name)
             raise Raised(Exc('ValueError', 'invalid literal'))
         if a.tag is None:
             if isinstance(a, Top) and a.ignorance:
